@@ -36,7 +36,10 @@ Inductive ty :=
 | TyStr                                         (* std::string holding UTF-8; here: code points *)
 | TyVec (e : ty)                                (* std::vector<T> *)
 | TyMap (e : ty)                                (* std::map<std::string, T> *)
-| TyObj (fields : list (list N * fkind * ty)).  (* class with Serialize(): members in declaration order *)
+| TyObj (fields : list (list N * fkind * ty))   (* class with Serialize(): members in declaration order *)
+| TyOpt (e : ty)                                (* std::optional<T>, std::unique_ptr<T>, std::shared_ptr<T> *)
+| TyFlt                                         (* float; a value is given by the IEEE bits of the same number as a double *)
+| TyEnum (names : list (list N)).               (* enum registered with REGISTER_ENUM: the names, by index *)
 
 Inductive val :=
 | VNull
@@ -45,7 +48,10 @@ Inductive val :=
 | VDbl (bits : N)
 | VStr (s : list N)
 | VArr (l : list val)
-| VObj (m : list (list N * val)).
+| VObj (m : list (list N * val))
+| VOpt (x : option val)
+| VFlt (dbits : N)
+| VEnum (i : N).
 
 (* lexicographic order on names (= byte order of their UTF-8 forms = std::map<std::string> order) *)
 Fixpoint key_cmp (a b : list N) : comparison :=
@@ -66,6 +72,42 @@ Fixpoint keys_sorted (ks : list (list N)) : bool :=
 
 Definition is_nonfinite (bits : N) : bool := (bits / 4503599627370496) mod 2048 =? 2047.
 
+(* ---- float as the double of the same value *)
+Definition d_exp (b : N) : N := (b / 4503599627370496) mod 2048.
+Definition d_man (b : N) : N := b mod 4503599627370496.
+
+(* the double is exactly a float value (zero, float normal or subnormal, infinity / NaN) *)
+Definition flt_exact (b : N) : bool :=
+  let e := d_exp b in let m := d_man b in
+  if e =? 0 then m =? 0
+  else if e =? 2047 then true
+  else (874 <=? e) && (e <=? 1150) && (m mod 2 ^ (N.max 29 (926 - e)) =? 0).
+
+(* Convert::To<float>(double): lowest() <= x <= max() (false for NaN and the infinities) *)
+Definition dbl_in_flt_range (b : N) : bool := b mod 9223372036854775808 <=? 0x47EFFFFFE0000000.
+
+(* static_cast<float>(double), round to nearest even, for a double in that range *)
+Definition flt_round (b : N) : N :=
+  let s := b / 9223372036854775808 in let e := d_exp b in let m := d_man b in
+  if e =? 0 then s * 9223372036854775808
+  else
+    let M := 4503599627370496 + m in
+    let q := N.max 29 (926 - e) in
+    let lo := M mod 2 ^ q in let hi := M / 2 ^ q in
+    let half := 2 ^ (q - 1) in
+    let hi' := if (half <? lo) || ((lo =? half) && N.odd hi) then hi + 1 else hi in
+    if hi' =? 0 then s * 9223372036854775808
+    else
+      let L := N.size hi' in
+      s * 9223372036854775808 + (e + q + L - 53) * 4503599627370496 + (hi' * 2 ^ (53 - L) - 4503599627370496).
+
+(* ---- enums: EnumRegistry::GetEnumMetadata(name) compares case-insensitively (ASCII), first match *)
+Fixpoint find_enum (names : list (list N)) (s : list N) (i : N) : option N :=
+  match names with
+  | [] => None
+  | n :: r => if list_eqb (map lower n) (map lower s) then Some i else find_enum r s (i + 1)
+  end.
+
 Fixpoint has_type (t : ty) (v : val) {struct t} : bool :=
   match t, v with
   | TyNull, VNull => true
@@ -82,6 +124,10 @@ Fixpoint has_type (t : ty) (v : val) {struct t} : bool :=
        | (k, _, ft) :: fs', (k', fv) :: ms' => key_eqb k k' && has_type ft fv && go fs' ms'
        | _, _ => false
        end) fields m
+  | TyOpt e, VOpt None => true
+  | TyOpt e, VOpt (Some x) => has_type e x
+  | TyFlt, VFlt d => (d <? 18446744073709551616) && flt_exact d
+  | TyEnum names, VEnum i => i <? N.of_nat (length names)
   | _, _ => false
   end.
 
@@ -95,6 +141,9 @@ Fixpoint default (t : ty) : val :=
   | TyVec _ => VArr []
   | TyMap _ => VObj []
   | TyObj fields => VObj (map (fun f => (fst (fst f), default (snd f))) fields)
+  | TyOpt _ => VOpt None
+  | TyFlt => VFlt 0
+  | TyEnum _ => VEnum 0
   end.
 
 (* ------------------------------------------------------------------ RapidJSON's in-memory DOM *)
@@ -123,6 +172,8 @@ Definition save_scalar_inner (t : ty) (v : val) : option rj :=
   | TyInt _, VInt z => Some (RInt z)
   | TyDbl, VDbl b => Some (RDbl b)
   | TyStr, VStr s => Some (RStr s)
+  | TyFlt, VFlt d => Some (RDbl d)                                   (* float promotes to double *)
+  | TyEnum names, VEnum i => option_map RStr (nth_error names (N.to_nat i))   (* the registered name, as a string *)
   | _, _ => None
   end.
 
@@ -158,13 +209,22 @@ Fixpoint save_inner (t : ty) (v : val) {struct t} : option rj :=
             match save_inner ft fv, go fs' ms' with Some d, Some ds => Some ((k, d) :: ds) | _, _ => None end
           | _, _ => None                       (* attributes are not supported by the JSON archive *)
           end) fields m)
+  | TyOpt e, VOpt None => Some RNull           (* Serialize(archive, nullptr) *)
+  | TyOpt e, VOpt (Some x) => save_inner e x
   | _, _ => save_scalar_inner t v
   end.
 
-Definition save_json (t : ty) (v : val) : option rj :=
+Definition save_root1 (t : ty) (v : val) : option rj :=
   match t with
-  | TyVec _ | TyMap _ | TyObj _ => save_inner t v
+  | TyVec _ | TyMap _ | TyObj _ | TyOpt _ => save_inner t v
   | _ => save_scalar_root t v
+  end.
+
+Definition save_json (t : ty) (v : val) : option rj :=
+  match t, v with
+  | TyOpt e, VOpt None => Some RNull
+  | TyOpt e, VOpt (Some x) => save_root1 e x
+  | _, _ => save_root1 t v
   end.
 
 (* ------------------------------------------------------------------ the writer and Finalize() *)
@@ -226,6 +286,37 @@ Definition finalize_json (d : rj) : fres := let (ok, ev) := accept d in if ok th
 
 (* the code before the repair (finding F26): the result of Accept was dropped *)
 Definition finalize_json_unchecked (d : rj) : fres := let (_, ev) := accept d in FDoc ev.
+
+(* ------------------------------------------------------------------ output options (serialization_options.h) *)
+
+Inductive utf := Utf8 | Utf16le | Utf16be | Utf32le | Utf32be.     (* Convert::Utf::UtfType, the values the archives support *)
+
+(* medium (std::string or std::ostream), streamOptions.encoding / writeBom, formatOptions.enableFormat / paddingChar / paddingCharNum *)
+Record sopts := mkSopts { so_stream : bool; so_enc : utf; so_bom : bool; so_fmt : bool; so_pad : N; so_cnt : N }.
+
+(* what RapidJsonRootScope::Finalize() configures: Writer or PrettyWriter + SetIndent(char, count); for a stream an
+   AutoUTFOutputStream(osw, ToRapidUtfType(encoding), writeBom), for a string a UTF-8 StringBuffer *)
+Inductive rj_utf := kUTF8 | kUTF16LE | kUTF16BE | kUTF32LE | kUTF32BE.
+Record rj_writer := mkW { w_indent : option (N * N); w_utf : rj_utf; w_bom : bool }.
+
+Definition to_rapid_utf (u : utf) : rj_utf :=
+  match u with Utf8 => kUTF8 | Utf16le => kUTF16LE | Utf16be => kUTF16BE | Utf32le => kUTF32LE | Utf32be => kUTF32BE end.
+
+Definition json_writer (o : sopts) : rj_writer :=
+  {| w_indent := if so_fmt o then Some (so_pad o, so_cnt o) else None;
+     w_utf := if so_stream o then to_rapid_utf (so_enc o) else kUTF8;
+     w_bom := so_stream o && so_bom o |}.
+
+(* third party (validated per document): what an AutoUTFOutputStream of that type puts out for a text *)
+Definition rj_scheme (t : rj_utf) : width * endian :=
+  match t with kUTF8 => (W8, LE) | kUTF16LE => (W16, LE) | kUTF16BE => (W16, BE) | kUTF32LE => (W32, LE) | kUTF32BE => (W32, BE) end.
+Definition rj_bom (t : rj_utf) : list N :=
+  match t with
+  | kUTF8 => [0xEF; 0xBB; 0xBF] | kUTF16LE => [0xFF; 0xFE] | kUTF16BE => [0xFE; 0xFF]
+  | kUTF32LE => [0xFF; 0xFE; 0; 0] | kUTF32BE => [0; 0; 0xFE; 0xFF]
+  end.
+Definition rj_put (w : rj_writer) (cps : list N) : list N :=
+  (if w_bom w then rj_bom (w_utf w) else []) ++ units_bytes (snd (rj_scheme (w_utf w))) (fst (rj_scheme (w_utf w))) (encs (fst (rj_scheme (w_utf w))) cps).
 
 (* ------------------------------------------------------------------ reading a document *)
 
@@ -301,8 +392,24 @@ Section Oracles.
       | _ => mismatch o
       end
     | TyStr => match d with RNull => NotLoaded | RStr s => Loaded (VStr s) | _ => mismatch o end
+    | TyFlt =>
+      let conv (b : N) := if dbl_in_flt_range b then Loaded (VFlt (flt_round b)) else overflow o in
+      match d with
+      | RNull => NotLoaded
+      | RInt z => conv (i2d z)
+      | RDbl b => conv b
+      | _ => mismatch o
+      end
+    | TyEnum names =>
+      match d with
+      | RNull => NotLoaded
+      | RStr s => match find_enum names s 0 with Some i => Loaded (VEnum i) | None => mismatch o end
+      | _ => mismatch o
+      end
     | _ => mismatch o
     end.
+
+  Definition is_boolty (t : ty) : bool := match t with TyBool => true | _ => false end.
 
   (* FindMember: first member with that name *)
   Fixpoint find_member (m : list (list N * rj)) (k : list N) : option rj :=
@@ -328,20 +435,23 @@ Section Oracles.
     | TyVec e =>
       match d with
       | RArr l =>
-        (fix go (l : list rj) : lout :=
+        (* an item that is not loaded is reset to T(); std::vector<bool> is read through one local bool, which keeps the
+           value of the previous item *)
+        (fix go (prev : val) (l : list rj) : lout :=
            match l with
            | [] => Loaded (VArr [])
            | x :: r =>
              match load_inner o e x with
              | Failed er => Failed er
              | res =>
-               let xv := match res with Loaded v => v | _ => default e end in
-               match go r with
+               let xv := match res with Loaded v => v | _ => if is_boolty e then prev else default e end in
+               match go xv r with
                | Loaded (VArr vs) => Loaded (VArr (xv :: vs))
                | other => other
                end
              end
-           end) l
+           end) (VBool false) l
+      | RNull => NotLoaded                 (* HandleMismatchedScopePolicy: null is "not loaded", no policy *)
       | _ => mismatch o
       end
     | TyMap e =>
@@ -388,6 +498,12 @@ Section Oracles.
            end) fields
       | RNull => NotLoaded
       | _ => mismatch o
+      end
+    | TyOpt e =>
+      (* the target is engaged with T(), loaded, and reset when nothing was loaded *)
+      match load_inner o e d with
+      | Loaded v => Loaded (VOpt (Some v))
+      | other => other
       end
     | _ => load_scalar o t d
     end.
@@ -464,16 +580,20 @@ Definition s_false : list N := [102; 97; 108; 115; 101].
 
 (* the name the array scope gives to an item: SerializeValue -> "value", OpenArrayScope -> "array",
    OpenObjectScope -> "object" *)
-Definition item_name (t : ty) : list N :=
-  match t with
-  | TyVec _ => s_array
-  | TyMap _ | TyObj _ => s_object
-  | _ => s_value
+Fixpoint item_name (t : ty) (v : val) : list N :=
+  match t, v with
+  | TyVec _, _ => s_array
+  | TyMap _, _ | TyObj _, _ => s_object
+  | TyOpt e, VOpt (Some x) => item_name e x
+  | _, _ => s_value                              (* scalars; an empty optional is written as nullptr *)
   end.
 
 Section XmlOracles.
   Variable dtoa17 : N -> list N.               (* pugixml text().set(double): printf("%.17g") *)
-  Variable xstrtod : list N -> option N.       (* std::from_chars(double) on the text; None = not a number *)
+  Variable dtoa9 : N -> list N.                (* pugixml text().set(float): printf("%.9g"); the float as double bits *)
+  (* std::from_chars on the text: None = not a number, Some None = out of the type's range, Some (Some bits) *)
+  Variable xstrtod : list N -> option (option N).
+  Variable xstrtof : list N -> option (option N).     (* float, as the double of the same value *)
 
   (* text written by xml_text::set / xml_attribute::set_value for a fundamental value or a string *)
   Definition scalar_text (t : ty) (v : val) : option (list N) :=
@@ -483,6 +603,8 @@ Section XmlOracles.
     | TyInt _, VInt z => Some (dec_of_Z z)
     | TyDbl, VDbl b => Some (dtoa17 b)
     | TyStr, VStr s => Some s
+    | TyFlt, VFlt d => Some (dtoa9 d)
+    | TyEnum names, VEnum i => nth_error names (N.to_nat i)
     | _, _ => None
     end.
 
@@ -491,7 +613,7 @@ Section XmlOracles.
   (* the element <name ...>...</name> that represents the value *)
   Fixpoint xml_elem (name : list N) (t : ty) (v : val) {struct t} : option xnode :=
     match t, v with
-    | TyVec e, VArr l => option_map (XElem name []) (opt_map (xml_elem (item_name e) e) l)
+    | TyVec e, VArr l => option_map (XElem name []) (opt_map (fun x => xml_elem (item_name e x) e x) l)
     | TyMap e, VObj m =>
       option_map (XElem name [])
         ((fix go (m : list (list N * val)) : option (list xnode) :=
@@ -509,6 +631,8 @@ Section XmlOracles.
            match xml_elem k ft fv with Some c => go fs' ms' attrs (c :: ch) | None => None end
          | _, _ => None
          end) fields m [] []
+    | TyOpt e, VOpt None => Some (XElem name [] [])
+    | TyOpt e, VOpt (Some x) => xml_elem name e x
     | _, _ => option_map (fun s => XElem name [] (text_child s)) (scalar_text t v)
     end.
 
@@ -661,7 +785,9 @@ Section XmlOracles.
         | TyStr => Loaded (VStr s)
         | TyBool => parse_bool_text o s
         | TyInt k => parse_int_text o k s
-        | TyDbl => match xstrtod (skip_blanks s) with Some b => Loaded (VDbl b) | None => mismatch o end
+        | TyDbl => match xstrtod (skip_blanks s) with Some (Some b) => Loaded (VDbl b) | Some None => overflow o | None => mismatch o end
+        | TyFlt => match xstrtof (skip_blanks s) with Some (Some b) => Loaded (VFlt b) | Some None => overflow o | None => mismatch o end
+        | TyEnum names => match find_enum names s 0 with Some i => Loaded (VEnum i) | None => mismatch o end
         | _ => mismatch o
         end
       end
@@ -676,7 +802,9 @@ Section XmlOracles.
       let (neg, s2) := match s with c :: r => if c =? 45 then (true, r) else (false, s) | [] => (false, s) end in
       let (ds, _) := span_digits s2 in
       Loaded (VInt (if neg then (- Z.of_N (digits_val ds))%Z else Z.of_N (digits_val ds)))
-    | TyDbl => match xstrtod s with Some b => Loaded (VDbl b) | None => Loaded (VDbl 0) end
+    | TyDbl => match xstrtod s with Some (Some b) => Loaded (VDbl b) | _ => Loaded (VDbl 0) end
+    | TyFlt => match xstrtof s with Some (Some b) => Loaded (VFlt b) | _ => Loaded (VFlt 0) end
+    | TyEnum names => match find_enum names s 0 with Some i => Loaded (VEnum i) | None => NotLoaded end
     | _ => NotLoaded
     end.
 
@@ -708,26 +836,27 @@ Section XmlOracles.
          LoadValue reads the text of the node itself *)
       match t with
       | TyVec _ | TyMap _ | TyObj _ => mismatch o
+      | TyOpt _ => NotLoaded                                   (* not produced by the archive; not modelled *)
       | _ => load_xml_scalar o t [XText s]
       end
     | XElem _ attrs ch =>
       match t with
       | TyVec e =>
         if root || first_is_elem ch then
-          (fix go (l : list xnode) : lout :=
+          (fix go (prev : val) (l : list xnode) : lout :=
              match l with
              | [] => Loaded (VArr [])
              | c :: r =>
                match load_xml_inner o false e c with
                | Failed er => Failed er
                | res =>
-                 let xv := match res with Loaded v => v | _ => default e end in
-                 match go r with
+                 let xv := match res with Loaded v => v | _ => if is_boolty e then prev else default e end in
+                 match go xv r with
                  | Loaded (VArr vs) => Loaded (VArr (xv :: vs))
                  | other => other
                  end
                end
-             end) ch
+             end) (VBool false) ch
         else mismatch o
       | TyMap e =>
         if root || first_is_elem ch then
@@ -768,6 +897,11 @@ Section XmlOracles.
                end
              end) fields
         else mismatch o
+      | TyOpt e =>
+        match load_xml_inner o root e x with
+        | Loaded v => Loaded (VOpt (Some v))
+        | other => other
+        end
       | _ => load_xml_scalar o t ch
       end
     end.
@@ -837,6 +971,21 @@ Definition ty_attronly : ty := TyObj [
   ([116; 121; 112; 101], FAttr, TyStr)            (* type *)
 ].
 
+(* enum class Colour { Red, Green, DarkBlue } registered as "Red", "green", "Dark Blue&<" *)
+Definition enum_colour : ty := TyEnum [[82; 101; 100]; [103; 114; 101; 101; 110]; [68; 97; 114; 107; 32; 66; 108; 117; 101; 38; 60]].
+
+(* optional / smart pointer members, float, enum, vector<bool>, char *)
+Definition ty_optc : ty := TyObj [
+  ([111; 105], FElem, TyOpt (TyInt I32));            (* oi : std::optional<int32_t> *)
+  ([111; 115], FElem, TyOpt TyStr);                  (* os : std::optional<std::string> *)
+  ([117; 118], FElem, TyOpt (TyVec (TyInt I32)));    (* uv : std::unique_ptr<std::vector<int32_t>> *)
+  ([115; 112], FElem, TyOpt ty_inner);               (* sp : std::shared_ptr<Inner> *)
+  ([102], FElem, TyFlt);                        (* f : float *)
+  ([101], FElem, enum_colour);                  (* e : Colour *)
+  ([118; 98], FElem, TyVec TyBool);                 (* vb : std::vector<bool> *)
+  ([99], FElem, TyInt I8)                      (* c : char *)
+].
+
 Definition catalogue : list ty := [
   TyNull; TyBool;
   TyInt I8; TyInt U8; TyInt I16; TyInt U16; TyInt I32; TyInt U32; TyInt I64; TyInt U64;
@@ -847,5 +996,13 @@ Definition catalogue : list ty := [
   ty_inner; ty_mix; TyVec ty_inner; TyMap ty_inner;
   ty_attr; TyVec ty_attr; ty_attronly; TyVec ty_attronly;
   (* std::u16string, std::u32string, std::wstring (transcoded by the archive layer): the same model type *)
-  TyStr; TyStr; TyStr; TyVec TyStr; TyMap TyStr
+  TyStr; TyStr; TyStr; TyVec TyStr; TyMap TyStr;
+  (* #42.. : vector<bool>; float; enum; char; optional / unique_ptr / shared_ptr *)
+  TyVec TyBool;
+  TyFlt; TyVec TyFlt; TyMap TyFlt;
+  enum_colour; TyVec enum_colour; TyMap enum_colour;
+  TyInt I8; TyVec (TyInt I8);
+  TyOpt (TyInt I32); TyOpt TyStr; TyVec (TyOpt (TyInt I32)); TyVec (TyOpt TyStr); TyMap (TyOpt TyDbl);
+  TyOpt (TyVec (TyInt I32));
+  ty_optc; TyVec ty_optc
 ].
